@@ -8,5 +8,5 @@ mkdir -p target
 cargo build -p bvengine -p bvhelpers
 cargo build -p bvinproc
 mkdir -p target/harness/helpers-bin
-for h in argdump fdprobe gen sink slow job fdcount marker childenv; do cp -u target/harness/debug/$h target/harness/helpers-bin/$h; done
+for h in argdump fdprobe fdlist gen sink slow job fdcount marker childenv; do cp -u target/harness/debug/$h target/harness/helpers-bin/$h; done
 echo "setup done"
